@@ -2,23 +2,29 @@
 import os, sys
 import common as C
 sys.path.insert(0, os.path.join(C.VERIF, "gen"))
+sys.path.insert(0, os.path.join(C.VERIF, "extract"))
 import parseinputs
 
 LEVEL = "proof"
 META = dict(
-    technique="PARTIAL: Lean 4 theorems about the parser's bookkeeping (cursor never leaves the buffer, Depth_Counter bounds the recursion and reports the limit, parse_internal returns a tree only for fully consumed input), the cursor model being tied to the real Position by the C20 correspondence; the parser as a whole is explored, not proved: the real parser runs under AddressSanitizer+UBSan on generated, mutated, truncated and pathological inputs",
+    technique="PARTIAL: Lean 4 theorems about the parser's bookkeeping (cursor never leaves the buffer, Depth_Counter bounds the recursion and reports the limit, parse_internal returns a tree only for fully consumed input) and about its recursion structure: the call graph of ChaiScript_Parser is regenerated from the source on every run and the kernel checks that every cycle passes through a Depth_Counter, from which the native parse stack is bounded for every input; the cursor model is tied to the real Position by the C20 correspondence; the parser as a whole is explored, not proved: the real parser runs under AddressSanitizer+UBSan on generated, mutated, truncated and pathological inputs",
     text=("PARTIAL. Kernel-checked: advancing the cursor any number of times keeps it inside the input and reading at the end yields the sentinel "
           "[cursor_stays_in_buffer, peek_total]; a descent whose every level goes through Depth_Counter never runs deeper than the limit and returns the "
-          "depth error exactly when the nesting exceeds it [guarded_descent_bounded, guarded_descent_reports]; parse_internal's acceptance rule returns a tree "
+          "depth error exactly when the nesting exceeds it [guarded_descent_bounded, guarded_descent_reports]; the call graph of the parser's member functions, regenerated "
+          "from chaiscript_parser.hpp on every run together with a rank certificate, has no cycle that avoids a function holding a named Depth_Counter constructed before its "
+          "first call [parser_cycles_are_guarded, kernel evaluation], so every native call stack of the parser, for every input, has at most (limit+1)(maxRank+2)+maxRank+1 "
+          "frames [guarded_graph_stack_bounded, parser_native_stack_bounded]; parse_internal's acceptance rule returns a tree "
           "only when every byte was consumed [accepted_means_whole_input]. NOT proved (a theorem about 2,500 lines of hand-written recursive descent is out of "
           "reach here): termination, memory safety and exception discipline of the grammar functions. Those are explored on the real parser built with "
           "clang -fsanitize=address,undefined, with no engine in the way: the repository's scripts, its never-run AFL corpus, byte-level mutations and "
-          "truncations of them, bracket soup, every escape-sequence shape in string/char literals and interpolations, nesting of 24 constructs to depths "
-          "1..2000 (thorough: 100000) closed, unclosed, half-closed and closers-only, and raw bytes incl. NUL and >0x7e. Oracles per input: the process "
+          "truncations of them, bracket soup, every escape-sequence shape in string/char literals and interpolations, nesting of 24 bracket-like constructs to depths "
+          "1..2000 (thorough: 100000) closed, unclosed, half-closed and closers-only, 150000-fold (thorough 400000-fold) repetitions of each of them and of 70 chain constructs "
+          "(assignment, every binary operator, dot / call / index chains, else-if, declarations...) alone and inside a block, call, container or condition, and raw bytes incl. NUL and >0x7e. Oracles per input: the process "
           "survives (no sanitizer report, no stack exhaustion, no std::terminate), the only exception type leaving parse is eval_error, and on success the "
           "cursor is at the end of the input, the File node ends at the (line, column) of the input's end, the depth counter is back to 0 and the match "
           "stack is empty."),
-    note=("Trusted: Lean kernel; Model/Pos.lean; gen/parseinputs.py; harness/parsefuzz.cpp; clang 14 sanitizers; hook commit 1ac80a4 (friend Access in the parser). "
+    note=("Trusted: Lean kernel; Model/Pos.lean; Model/ParseGraph.lean and extract/e_parsegraph.py (a syntactic call graph of the member functions of ChaiScript_Parser reachable from "
+          "parse_internal: calls on other objects, e.g. Char_Parser or Position, are not edges; overloads are merged; the stack bound counts parser frames, not bytes); gen/parseinputs.py; harness/parsefuzz.cpp; clang 14 sanitizers (signed overflow and shift checks off: constant folding does C++ arithmetic at parse time and C05 excludes non-trapping undefined results by name); hook commit 1ac80a4 (friend Access in the parser). "
           "Exploration is not a proof: an input class never generated is not covered."),
     design_ref="DESIGN.md §6 C01")
 
@@ -34,6 +40,8 @@ def line_col(b):
 
 
 def run(ctx):
+    import e_parsegraph
+    C.run_extractor(ctx, "parsegraph", e_parsegraph, "ParseGraph.lean")
     status, text, rc = C.lean_obligations(ctx, ["C01"])
     with ctx.timer("harness_build"):
         exe, log = C.harness_build("parsefuzz")
